@@ -106,10 +106,10 @@ func startEntryPoints(cfg optsCfg, probes *app.Probes, upstream string) ([]*entr
 		var rules []rconfig.Rule
 		for _, rl := range e2eRules {
 			rules = append(rules, rconfig.Rule{
-				ID:      rl.id,
-				Matcher: rconfig.Matcher{Routes: []rconfig.Route{{Path: rl.path}}},
-				Backend: &rconfig.Backend{Host: upstream},
-				Execute: []config.MechanismConfig{{"authenticator": "anon"}, {"authorizer": "probe:z1"}, {"finalizer": "noop"}},
+				ID:           rl.id,
+				Matcher:      rconfig.Matcher{Routes: []rconfig.Route{{Path: rl.path}}},
+				Backend:      &rconfig.Backend{Host: upstream},
+				Execute:      []config.MechanismConfig{{"authenticator": "anon"}, {"authorizer": "probe:z1"}, {"finalizer": "noop"}},
 				ErrorHandler: rl.onError,
 			})
 		}
@@ -258,8 +258,17 @@ func judgeE2E(r *core.Run, c *e2eCase, outcome string, st *stats) {
 	st.add("failure_requests", 1)
 	st.add("outcome_"+outcome, 1)
 
+	status := func(class string) int {
+		if v := c.Options.Overrides[class]; v != 0 {
+			return v
+		}
+		return classDefault[class]
+	}
 	if outcome == "panic" {
-		c.Expected = "500-class answer (HTTP 5xx, denied 5xx or rpc error), never success"
+		// a panic is an internal failure: 500 or the status configured for internal errors; the gRPC
+		// server may also answer with the rpc status Internal
+		want := status("internal")
+		c.Expected = fmt.Sprintf("%d (internal) or rpc error Internal, never success", want)
 		st.add("panic_cases", 1)
 		switch {
 		case success:
@@ -267,10 +276,10 @@ func judgeE2E(r *core.Run, c *e2eCase, outcome string, st *stats) {
 		case o.RPCErr != "":
 			st.add("panic_rpc_errors", 1)
 			if !strings.Contains(o.RPCErr, "Internal") {
-				fail("e2e-panic-not-500-class", "panic answered with rpc error "+o.RPCErr)
+				fail("e2e-panic-not-internal", "panic answered with rpc error "+o.RPCErr)
 			}
-		case o.Status < 500 || o.Status > 599:
-			fail("e2e-panic-not-500-class", fmt.Sprintf("panic answered with status %d", o.Status))
+		case o.Status != want:
+			fail("e2e-panic-not-internal", fmt.Sprintf("panic answered with status %d, expected %d", o.Status, want))
 		}
 		return
 	}
@@ -281,12 +290,6 @@ func judgeE2E(r *core.Run, c *e2eCase, outcome string, st *stats) {
 	if success {
 		fail("success-on-failure", fmt.Sprintf("failure answered with success (status %d)", o.Status))
 		return
-	}
-	status := func(class string) int {
-		if v := c.Options.Overrides[class]; v != 0 {
-			return v
-		}
-		return classDefault[class]
 	}
 	switch c.HandlerRan {
 	case "www":
